@@ -3,5 +3,11 @@ import PyXABProofs.Generated.Geometry
 import PyXABProofs.Props.C02
 import PyXABProofs.Props.C03
 import PyXABProofs.Props.C04
-import PyXABProofs.Props.C06
 import PyXABProofs.Props.C05
+import PyXABProofs.Props.C06
+import PyXABProofs.Props.C07
+import PyXABProofs.Props.C08
+import PyXABProofs.Props.C09
+import PyXABProofs.Props.C10
+import PyXABProofs.Props.C11
+import PyXABProofs.Props.C12
